@@ -602,11 +602,16 @@ def run_interleaved(case):
         newcert = certs.get("ec-a")
         other = TOFUDatabase(dbpath)
 
+        pinned_by_other = []  # only what the other connection really managed to write (an import that holds the
+        #                       write lock while it asks makes these calls fail: then there is nothing to lose)
+
         def on_conflict(h, port, old, new):
             other.revoke("conflict.example", 1965)
             other.trust("newcomer.example", case["newport"], x509.load_der_x509_certificate(newcert.der))
+            pinned_by_other.append(("newcomer.example", case["newport"]))
             for i in range(case["later_rows"]):
                 other.trust(f"later{i}.example", 1965, x509.load_der_x509_certificate(newcert.der))
+                pinned_by_other.append((f"later{i}.example", 1965))
             return True
 
         err = None
@@ -622,8 +627,10 @@ def run_interleaved(case):
                             f"for its conflict callback; after the import it holds {fp[:20]} (the fingerprint imported for conflict.example)", **info)
             if k[0].startswith("keep") and fp != FPS[2]:
                 return viol("pin-of-unnamed-host-altered", f"{k}: {fp[:20]}", **info)
-        if ("newcomer.example", case["newport"]) not in t:
-            return viol("pin-of-unnamed-host-altered", "the host pinned by the other connection is gone", **info)
+        info["other_wrote"] = len(pinned_by_other)
+        for k in pinned_by_other:
+            if k not in t:
+                return viol("pin-of-unnamed-host-altered", f"the host {k} pinned by the other connection is gone", **info)
         return ok(**info)
     finally:
         import shutil
